@@ -15,7 +15,7 @@ import z3
 
 from .core import *  # noqa: F401,F403
 from .vals import *  # noqa: F401,F403
-from .vals import SEQ
+from .vals import SEQ, VGapTuple
 
 _PARSE_CACHE: dict[str, ast.expr] = {}
 
@@ -263,6 +263,8 @@ class SpecMixin:
         st = self.eval(node.args[0], fr)
         toks = self.get_field(st, "tokens")
         p = self.get_payload(toks.ref)
+        if p.gapped:
+            return VGapTuple(p.items, p.tail_items)
         return VTuple(list(p.items))
 
     def spec_ntokens(self, node, fr):
